@@ -3,6 +3,7 @@ import Driver.MuxD
 import Driver.CodecD
 import Driver.HsD
 import Driver.CliD
+import Driver.StreamD
 /-!
 # `limedriver` — line protocol in front of the executable model
 
@@ -27,6 +28,9 @@ def dispatch (j : Json) : R Json := do
   | "cliwants" => CliD.handleWants j
   | "clijudge" => CliD.handleJudge j
   | "build" => CodecD.handleBuild j
+  | "wloop" => StreamD.handleWloop j
+  | "frames" => StreamD.handleFrames j
+  | "rlimit" => StreamD.handleRlimit j
   | "ping" => pure (Json.mkObj [("pong", .bool true)])
   | _ => throw s!"unknown mode {m}"
 
